@@ -24,6 +24,7 @@ import hashlib
 import types
 
 from edgegraph.structure import base
+from edgegraph.structure.vertex import Vertex as _Vertex
 
 ATOMS = (int, float, str, bytes, bool, type(None), complex)
 
@@ -108,12 +109,13 @@ def canon_graph(roots, *, uid="drop", skip_attrs=(), registered=None, extra_obje
                 if k in skip_attrs:
                     continue
                 v = vars(x)[k]
-                if k == "_uid" and uid == "drop":
-                    attrs.append((k, "uid"))
+                if uid == "drop" and isinstance(x, base.BaseObject) and isinstance(v, int) \
+                        and not isinstance(v, bool) and v == x.uid and v > 2 ** 64:
+                    attrs.append((k, "uid"))          # the attribute that stores the (random) uid
                 else:
                     attrs.append((k, ref(v)))
             d = ("obj", type(x).__module__, type(x).__qualname__, tuple(attrs))
-            if registered is not None and isinstance(x, base.BaseObject) and hasattr(x, "_links"):
+            if registered is not None and isinstance(x, _Vertex):
                 d = d + (("registered", bool(registered(x))),)
             descs[i] = d
     if return_nodes:
